@@ -6,7 +6,10 @@ package service
 // In-package driver for the deterministic simulator (Go -overlay from /verif/overlay).
 
 import (
+	"com.tuntun.rangers/node/src/common"
 	"com.tuntun.rangers/node/src/middleware/db"
+	"com.tuntun.rangers/node/src/middleware/types"
+	"com.tuntun.rangers/node/src/storage/account"
 	lru "github.com/hashicorp/golang-lru"
 )
 
@@ -41,4 +44,22 @@ func (pool *TxPool) SimRingLen() int {
 	n := 0
 	pool.received.txAnnualRingMap.Range(func(k, v interface{}) bool { n++; return true })
 	return n
+}
+
+// SimRefundAddress is the escrow account of a release height.
+func SimRefundAddress(height uint64) common.Address { return RefundManagerImpl.generateAddress(height) }
+
+// SimMinerIterate walks the registry of one miner type on the given state the way
+// leader election and the account-uniqueness check do.
+func SimMinerIterate(minerType byte, state *account.AccountDB) []*types.Miner {
+	var out []*types.Miner
+	it := MinerManagerImpl.minerIterator(minerType, state)
+	for it.Next() {
+		m, _ := it.Current()
+		if m != nil {
+			c := *m
+			out = append(out, &c)
+		}
+	}
+	return out
 }
